@@ -197,7 +197,7 @@ def encode_text(cps, enc):
     """Encode a list of scalar values / raw units.  Items may be ints (scalars) or ('raw', [units])."""
     out = []
     for c in cps:
-        if isinstance(c, tuple):
+        if isinstance(c, (tuple, list)):          # ('raw', [units]); a list after a JSON round trip
             out.extend(c[1])
             continue
         if enc == 4:
